@@ -444,9 +444,9 @@ func (obj *LogisticRegression) f_dense(i int, theta DenseFloat64Vector) (float64
   if i >= len(x) {
     return y, w, x[i], fmt.Errorf("index out of bounds")
   }
-  obj.logisticRegression.Theta = theta
-
-  r := obj.logisticRegression.LogPdfDense(x[i])
+  // do not store theta in obj: this function is called concurrently by
+  // several workers, each with its own parameter vector
+  r := logisticRegression{theta}.LogPdfDense(x[i])
 
   if math.IsNaN(r) {
     return y, w, x[i], fmt.Errorf("NaN value detected")
@@ -470,9 +470,9 @@ func (obj *LogisticRegression) f_sparse(i int, theta DenseFloat64Vector) (float6
   if i >= len(x) {
     return y, w, x[i], fmt.Errorf("index out of bounds")
   }
-  obj.logisticRegression.Theta = theta
-
-  r := obj.logisticRegression.LogPdfSparse(x[i])
+  // do not store theta in obj: this function is called concurrently by
+  // several workers, each with its own parameter vector
+  r := logisticRegression{theta}.LogPdfSparse(x[i])
 
   if math.IsNaN(r) {
     return y, w, x[i], fmt.Errorf("NaN value detected")
